@@ -451,7 +451,7 @@ def trace_check(ctx, prop, c, traces, tag):
         ctx.infra("trace validation did not run to the end: %s %s" % (r.status, r.errors[:2]))
     else:
         # first event no specification behaviour explains: model drift unless an oracle above already reported a violation
-        k = min(v["matched"], len(index) - 1)
+        k = max(0, min(v["matched"] - 1, len(index) - 1))  # events[0] is the header; events[matched] is the first unexplained one
         ti, si = index[k]
         ev = events[k + 1]
         if not (ctx.violations or ctx.known_hits):
